@@ -44,6 +44,14 @@ def names_for(defs, cls, mid, bfix):
     return [cname, mname]
 
 
+def alias_names(defs, cls, mid):
+    """every [class name, message name] the tables map to this class / ID (2- and 3-byte message keys)"""
+    cname = next((c["name"] for c in defs["classes"] if c["key"] == [cls]), None)
+    if cname is None:
+        return []
+    return [[cname, m["name"]] for m in defs["msgids"] if m["key"][:2] == [cls, mid]]
+
+
 def jsonable_kwargs(msg):
     out = {}
     for k, v in vars(msg).items():
@@ -178,6 +186,12 @@ def run(ctx):
                 yield ("c04", {"m": mode, "cls": c, "id": i, "name": "%02x%02x" % (c, i), "names": nm, "route": "none", "P": None, "kwargs": None})
 
     run_batch(ctx, MODULE, CFG, list(gen_ids()), build.OBSERVERS, sigfn, negfn, chunk=6000, parallel=False)
+    # message types (re)registered by the application at run time, in child interpreters (each case a fresh one)
+    from . import run_opt
+
+    for step in (0, 1, 2):
+        for route, P in (("none", None), ("payload", "0102030405")):
+            run_opt(ctx, MODULE, CFG, "build:c04ext", [{"cls": 0x99, "step": step, "route": route, "P": P, "m": 0, "name": "XYZ-STAT"}], sigfn, flags_list=((),), parts=1)
     ctx.exhaustive = False
 
 
